@@ -297,14 +297,46 @@ theorem cons_filterstats_ingestBulk_eq_indexBulk (enc : Collector.DocPos → Nat
   · rw [cons_filterstats_c04_filterStats_eq_c14_survivors _ _ hsub]
     rfl
 
-/-- **Remaining difference: the IDs handed to `AppendIDs`.**  Go appends `collector.IDs` AFTER `Filter`, i.e. the
-survivors (every entry of the bulk whose ID is in `appended`); C17's `indexBulk` does (`a.ids ++ c.ids`), C14's ghost
-field `AState.ids` appends `appended` itself.  They differ when one bulk holds the same ID twice with different
-positions (second occurrence dropped by `SetMultiple`, but kept by `Filter`): Go/C17 add the ID twice, C14 once.
-Go side: C17 (frac/active_indexer.go: `Filter(appendedIDs)` then `AppendIDs(collector.IDs)`).  Effect on C14's
-theorems: none (the extra entry repeats a MID already covered; `DocsTotal` is `len(appended)` in both). -/
+/-- **Go `AppendIDs(collector.IDs)` after the optional `Filter`: C14 `AState.lids` = the IDs C17's `indexBulk` appends**
+(the survivors of `SV.Collector.filter`), for every bulk, whenever the positions maps agree beforehand.  With the IDs
+appended so far in agreement (`a.ids = pre ++ st.lids`, `pre` = C17's stub entry) they agree afterwards.
+Representation change: `filterstatsEntries` / `filterstatsDp`, any injective position encoding.  All inputs. -/
+theorem cons_filterstats_c14_lids_eq_c17_indexBulk_ids (enc : Collector.DocPos → Nat)
+    (henc : ∀ p q, enc p = enc q → p = q) (st : FracInfo.AState) (a : Collector.Active) (ms : List Collector.Meta)
+    (hp : st.pos = filterstatsDp enc a.dp) :
+    (FracInfo.ingestBulk st
+        (filterstatsEntries enc (ms.map (·.id)) (Collector.collect a.blocks.length ms).positions)).lids
+        = st.lids ++ (Collector.dedupCollector a ms).1.ids ∧
+      ∀ pre, a.ids = pre ++ st.lids →
+        (Collector.indexBulk a ms).ids = pre ++ (FracInfo.ingestBulk st
+          (filterstatsEntries enc (ms.map (·.id)) (Collector.collect a.blocks.length ms).positions)).lids := by
+  have hspec := Collector.collect_spec a.blocks.length ms
+  have hids := hspec.2.2.1
+  have hlen : (Collector.collect a.blocks.length ms).positions.length = (ms.map (·.id)).length := by
+    rw [← hids]; exact hspec.1.1.1
+  have hsm := cons_filterstats_c17_setMultiple_eq_c14 enc henc (ms.map (·.id))
+    (Collector.collect a.blocks.length ms).positions a.dp
+  have hfst := filterstats_entries_fst enc (ms.map (·.id)) _ hlen
+  have hd := cons_filterstats_c17_dedupCollector_eq_c14_survivors a ms
+  have h1 : (FracInfo.ingestBulk st
+        (filterstatsEntries enc (ms.map (·.id)) (Collector.collect a.blocks.length ms).positions)).lids
+        = st.lids ++ (Collector.dedupCollector a ms).1.ids := by
+    unfold FracInfo.ingestBulk
+    simp only [hp, hsm, hfst]
+    rw [hd.1]
+  refine ⟨h1, fun pre hpre => ?_⟩
+  rw [h1, ← List.append_assoc, ← hpre]
+  rfl
+
+example : (Collector.Active.empty).ids = (Collector.Active.empty).ids ++ (FracInfo.newActive 0).lids := by
+  simp [FracInfo.newActive]
+
+/-- the other ghost list, `AState.ids` (what `SetMultiple` appended, the thing `DocsTotal` counts), is NOT what
+`AppendIDs` receives: on a bulk with the same ID at two positions it has the ID once, `lids` / C17 / Go's `MIDs` twice.
+(Both lists are intended by C14 now; kept as the record of why `lids` was added.) -/
 theorem cons_filterstats_c14_ids_ne_c17_survivors_witness :
     (FracInfo.ingestBulk (FracInfo.newActive 0) [((5, 1), 0), ((5, 1), 7)]).ids = [(5, 1)] ∧
+      (FracInfo.ingestBulk (FracInfo.newActive 0) [((5, 1), 0), ((5, 1), 7)]).lids = [(5, 1), (5, 1)] ∧
       FracInfo.survivors [(5, 1), (5, 1)] (FracInfo.setMultiple [] [((5, 1), 0), ((5, 1), 7)]).2 = [(5, 1), (5, 1)] := by
   decide
 
